@@ -80,7 +80,7 @@ Record xissue := mkXissue { xi_rule : xrule; xi_item : xvar }.      (* all of le
 
 (* std::map<VariablePtr, VariablePtrs> primaryExternalVariables, as an association list in insertion order (the C++
    map is iterated in pointer order: only the multiset of messages is meaningful) *)
-Definition pev := list (vref * list vref).
+Notation pev := (list (vref * list vref)) (only parsing).
 Fixpoint pev_add (key v : vref) (l : pev) : pev :=
   match l with
   | [] => [(key, [v])]
@@ -130,7 +130,7 @@ Definition analyse_x (fixed : bool) (s : system) (marks : list xmark) : xresult 
   | None => mkXresult Malformed [] false
   | Some (ivs0, es0) =>
       match check_inits s ivs0 0 s with
-      | _ :: _ as iss0 => mkXresult (Done (invalid_result MInvalid iss0)) [] false
+      | (_ :: _) as iss0 => mkXresult (Done (invalid_result MInvalid iss0)) [] false
       | [] =>
           let '(ivs1, pe, xi1) := fold_left (mark_step s) marks (ivs0, [], []) in
           let vst := analyse_asts s ivs1 es0 in
@@ -158,6 +158,21 @@ Definition marked_classes (s : system) (marks : list xmark) : list nat :=
 Definition voi_class (s : system) (r : result) : option nat := option_map (cls_of s) (r_voi r).
 Definition is_voi_class (s : system) (r : result) (k : nat) : bool :=
   match voi_class s r with Some c => c =? k | None => false end.
+
+(* the variable of integration that analyseEquationAst finds (it does not depend on the marks) *)
+Definition model_voi (s : system) : option vref :=
+  match build s with Some (ivs0, es0) => vs_voi (analyse_asts s ivs0 es0) | None => None end.
+Definition is_voi_mark (s : system) (m : xmark) : bool :=
+  match xm_var m, model_voi s with XLocal r, Some v => cls_of s r =? cls_of s v | _, _ => false end.
+Definition is_local_mark (m : xmark) : bool := match xm_var m with XLocal _ => true | XForeign _ => false end.
+(* two marks on variables of the same class (or both foreign) with the same declared dependencies *)
+Definition same_class_mark (s : system) (m m' : xmark) : Prop :=
+  xm_deps m = xm_deps m' /\
+  match xm_var m, xm_var m' with
+  | XLocal r, XLocal r' => cls_of s r = cls_of s r'
+  | XForeign _, XForeign _ => True
+  | _, _ => False
+  end.
 
 (* type and defining equations of the class k in a result: (type, [(equation id, type, computed variables as classes)]) *)
 Definition qtype_eqb (a b : qtype) : bool :=
